@@ -18,7 +18,7 @@ _ALLOWED = (ast.Expression, ast.BoolOp, ast.And, ast.Or, ast.Not, ast.UnaryOp, a
             ast.Mult, ast.Mod, ast.FloorDiv, ast.IfExp, ast.GeneratorExp, ast.ListComp, ast.comprehension,
             ast.Store, ast.keyword, ast.Attribute)
 _FUNCS = {"len": len, "any": any, "all": all, "max": max, "min": min, "sum": sum, "abs": abs,
-          "set": set, "sorted": sorted, "tuple": tuple, "list": list, "range": range, "str": str, "int": int}
+          "set": set, "sorted": sorted, "zip": zip, "tuple": tuple, "list": list, "range": range, "str": str, "int": int}
 
 
 def safe_eval(expr: str, env: dict):
@@ -64,6 +64,7 @@ def features(trace: dict, line: int) -> dict:
          "arg_carrier": [a.get("carrier", "") for a in args],
          "arg_nrows": [len(a.get("rows", [])) for a in args],
          "arg_names": [tuple(a.get("names", ())) for a in args],
+         "arg_rows": [[tuple(r) for r in a.get("rows", [])] for a in args],
          "arg_maxexp": [max([e for row in a.get("rows", []) for e in row] or [0]) for a in args],
          "opts": ev.get("opts", {})}
     for k, v in ev.items():
